@@ -79,7 +79,8 @@ impl ConfirmHistory {
         };
 
         let len = end_tick - start_tick + 1; // +1 because the range is inclusive.
-        let range = (1 << len) - 1; // Shift 1 to `len` and then decrement to get `len` of 1's.
+        // Shift 1 to `len` and then decrement to get `len` of 1's.
+        let range = 1u64.checked_shl(len).map_or(u64::MAX, |range| range - 1);
         let offset = self.last_tick - end_tick;
         let mask = range << offset;
 
@@ -120,7 +121,7 @@ impl ConfirmHistory {
     pub(super) fn set_last_tick(&mut self, tick: RepliconTick) {
         debug_assert!(tick >= self.last_tick);
         let diff = tick - self.last_tick;
-        self.mask = self.mask.wrapping_shl(diff);
+        self.mask = self.mask.checked_shl(diff).unwrap_or(0);
         self.last_tick = tick;
         self.mask |= 1;
     }
